@@ -30,6 +30,9 @@ def universe(tier, seed):
     feature += [b for b in S.enumerate_methods(5, 3, {"s", "for", "dowhile", "continue", "break"})
                 if S.size_of_body(b) >= 4 and ({"for", "dowhile"} & S.features(b)) and ({"continue", "break"} & S.features(b))]
     feature += [b for b in S.enumerate_methods(5, 3, {"s", "whileelse", "break", "continue", "if", "return"}) if "whileelse" in S.features(b)]
+    # break / continue in the handlers, the else clause and the finally clause of a try statement inside a loop
+    feature += [b for b in S.enumerate_methods(6, 3, {"s", "while", "try", "break", "continue"})
+                if {"try", "while"} <= S.features(b) and ({"break", "continue"} & S.features(b)) and S.size_of_body(b) <= 6 and len(b) == 1 and b[0][0] == "while"]
     small = small + feature
     out = []
     for r in S.RENDERERS:
